@@ -54,18 +54,14 @@ func c15(p *core.Prog, r *core.Report) {
 			if !hasPop {
 				continue
 			}
-			ifi, isIf := l.Header.Instrs[len(l.Header.Instrs)-1].(*ssa.If)
-			if !isIf {
+			bound := loopTripBound(l)
+			if bound == nil {
 				continue
 			}
-			bo, isBO := ifi.Cond.(*ssa.BinOp)
-			if !isBO || bo.Op != token.LSS {
-				continue
-			}
-			if callResult(bo.Y, "peerHeap.Len") != nil {
+			if callResult(bound, "peerHeap.Len") != nil {
 				ok = true
 			} else {
-				how = "the scan over the heap is bounded by " + desc(bo.Y) + " instead of the heap length: eligible peers behind that many ineligible ones are never reached"
+				how = "the scan over the heap is bounded by " + desc(bound) + " instead of the heap length: eligible peers behind that many ineligible ones are never reached"
 			}
 		}
 		r.Check(ok, "C15-R3", fname(f), "the selection scan can reach every heap element", p.Pos(f.Pos()), "loop bound = peerHeap.Len()", how)
@@ -246,7 +242,7 @@ func c15(p *core.Prog, r *core.Report) {
 		pushes := core.CallsIn(f, "peerHeap.pushPeer")
 		core.EachInstr(f, func(i ssa.Instruction) {
 			ret, ok := i.(*ssa.Return)
-			if !ok || core.IsNilConst(ret.Results[0]) {
+			if !ok || core.IsNilConst(core.ReturnValues(ret)[0]) {
 				return
 			}
 			for _, pu := range pushes {
@@ -291,7 +287,7 @@ func c15(p *core.Prog, r *core.Report) {
 		offset := false
 		core.EachInstr(f, func(i ssa.Instruction) {
 			if ret, ok := i.(*ssa.Return); ok {
-				if c, isC := ret.Results[0].(*ssa.Const); isC && c.Value != nil && c.Value.ExactString() == fmt.Sprint(uint64(math.MaxUint64)) {
+				if c, isC := core.ReturnValues(ret)[0].(*ssa.Const); isC && c.Value != nil && c.Value.ExactString() == fmt.Sprint(uint64(math.MaxUint64)) {
 					// guarded by inbound+outbound == 0
 					for _, cm := range factsAt(ret.Block()).cmps {
 						if k, isK := core.ConstInt(cm.Y); isK && k == 0 && cm.Op == token.EQL {
@@ -299,7 +295,7 @@ func c15(p *core.Prog, r *core.Report) {
 						}
 					}
 				}
-				if bo, isB := ret.Results[0].(*ssa.BinOp); isB && bo.Op == token.ADD {
+				if bo, isB := core.ReturnValues(ret)[0].(*ssa.BinOp); isB && bo.Op == token.ADD {
 					for _, side := range []ssa.Value{bo.X, bo.Y} {
 						if k, isK := core.ConstInt(side); isK && k == math.MaxInt32 {
 							// the lower tier is taken exactly when the inbound count is zero
@@ -406,8 +402,22 @@ func c16(p *core.Prog, r *core.Report) {
 		if !a.Write || a.Fresh {
 			continue
 		}
+		// judged by what the write is, not by the name of the function it lives
+		// in: an insert is only legal behind the admission guards (checked by
+		// "tracked only if ..."), a removal only for a connection that reached
+		// the closed state
 		fn := a.Fn.Name()
-		r.Check(fn == "addConnection" || fn == "removeClosedConn", "C16-R1", fname(a.Fn), "write to Channel.conns", p.Pos(a.Instr.Pos()), "only addConnection / removeClosedConn", "the channel's connection table is modified elsewhere")
+		ok := fn == "addConnection" || fn == "removeClosedConn"
+		if !ok {
+			if c, isDel := core.IsBuiltin(a.Instr, "delete"); isDel {
+				dconn := p.NewDomain("", "connectionState")
+				closed := dconn.Min(dconn.OfName("connectionClosed"))
+				if factsAt(c.Block()).hasCmp(func(v ssa.Value) bool { return callResult(v, "Connection.readState") != nil }, []token.Token{token.EQL, token.GEQ}, closed) {
+					ok = true
+				}
+			}
+		}
+		r.Check(ok, "C16-R1", fname(a.Fn), "write to Channel.conns", p.Pos(a.Instr.Pos()), "insert in addConnection (guards checked separately) / removal of a closed connection", "the channel's connection table is modified elsewhere")
 	}
 	channelTracksOnlyOpen(p, r, "C16-R1")
 	refusedConnIsClosed(p, r, "C16-R1")
@@ -499,7 +509,7 @@ func c16(p *core.Prog, r *core.Report) {
 		add := pair(conn, "Channel.addConnectionToPeer")
 		// in the close callback the second peer lookup is guarded by outboundHP != remote HostPort
 		rem := ""
-		for _, ls := range peerLookups(ccs) {
+		for _, ls := range peerLookupsDeep(p, ccs) {
 			c := ls.At
 			for _, cm := range factsAt(c.Block()).cmps {
 				if cm.Op != token.NEQ {
